@@ -111,7 +111,7 @@ func (w *World) KVEntry(key string) *structs.DirEntry {
 
 // Cfg selects which op families a machine draws and how often.
 type Cfg struct {
-	KV, Session, Reap, Catalog, Dereg, Txn, TxnRO, PQ, Config, Coord, SysMeta int // weights
+	KV, Session, Reap, Catalog, Dereg, Txn, TxnRO, PQ, Config, Coord, SysMeta, Killer int // weights
 	TxnCatalog   bool // txn may contain node/service/check/session verbs
 	Peers        bool // peer-scoped registrations
 	Connect      bool // proxies, native, gateways
@@ -146,6 +146,7 @@ func (w *World) DrawOp(t *rapid.T, cfg *Cfg) *Op {
 		{cfg.Config, func() *Op { return w.DrawConfig(t) }},
 		{cfg.Coord, func() *Op { return w.DrawCoord(t) }},
 		{cfg.SysMeta, func() *Op { return w.DrawSysMeta(t) }},
+		{cfg.Killer, func() *Op { return w.DrawSessionKiller(t, cfg) }},
 	}
 	total := 0
 	for _, f := range fams {
@@ -233,7 +234,11 @@ func (w *World) drawSessionRef(t *rapid.T) string {
 
 // DrawKV draws one KV write.
 func (w *World) DrawKV(t *rapid.T) *Op {
-	kind := pick(t, "kvkind", []string{KVSet, KVSet, KVCAS, KVCAS, KVDelete, KVDeleteCAS, KVDeleteTree, KVLock, KVLock, KVUnlock})
+	kinds := []string{KVSet, KVSet, KVCAS, KVCAS, KVDelete, KVDeleteCAS, KVDeleteTree, KVLock, KVLock, KVUnlock}
+	if len(w.LiveSessions()) > 0 {
+		kinds = append(kinds, KVLock, KVLock, KVLock, KVUnlock)
+	}
+	kind := pick(t, "kvkind", kinds)
 	idx := w.NextIdx(t)
 	if kind == KVDeleteTree {
 		return NewKV(kind, idx, pick(t, "prefix", Prefixes), nil, 0, 0, "")
@@ -261,6 +266,20 @@ func (w *World) DrawKV(t *rapid.T) *Op {
 		sess := w.drawSessionRef(t)
 		if cur != nil && cur.Session != "" && chance(t, "holder", 50) {
 			sess = cur.Session
+		}
+		if kind == KVUnlock && chance(t, "heldkey", 60) { // aim at a key that is actually held
+			if _, ents, _ := w.Store.KVSList(nil, "", nil); len(ents) > 0 {
+				var held []*structs.DirEntry
+				for _, e := range ents {
+					if e.Session != "" {
+						held = append(held, e)
+					}
+				}
+				if len(held) > 0 {
+					h := pick(t, "heldpick", held)
+					key, cur, sess = h.Key, h, h.Session
+				}
+			}
 		}
 		v, f := w.drawValue(t), w.drawFlags(t)
 		if cur != nil && chance(t, "sameval", 30) {
@@ -321,6 +340,9 @@ func (w *World) DrawSession(t *rapid.T, cfg *Cfg) *Op {
 	if cfg.SessionChecks {
 		checks := w.NodeChecks(node, "")
 		n := rapid.IntRange(0, 2).Draw(t, "nsesschecks")
+		if len(checks) > 0 && n == 0 && chance(t, "bindanyway", 60) {
+			n = 1
+		}
 		for i := 0; i < n; i++ {
 			var cid string
 			if len(checks) > 0 && chance(t, "livecheck", 85) {
@@ -670,12 +692,21 @@ func (w *World) DrawTxn(t *rapid.T, cfg *Cfg, _ int) *Op {
 	}
 	n := rapid.IntRange(1, max).Draw(t, "ntxn")
 	var ops structs.TxnOps
+	good := chance(t, "aimtosucceed", 65) // every verb chosen so that it passes on the pre-state
 	for i := 0; i < n; i++ {
+		var op *structs.TxnOp
 		if cfg.TxnCatalog && chance(t, "catalogop", 45) {
-			ops = append(ops, w.drawTxnCatalogOp(t, cfg))
+			op = w.drawTxnCatalogOp(t, cfg)
+			if good {
+				w.fixTxnCatalogOp(t, op)
+			}
 		} else {
-			ops = append(ops, w.DrawTxnKVOp(t))
+			op = w.DrawTxnKVOp(t)
+			if good {
+				w.fixTxnKVOp(t, op.KV)
+			}
 		}
+		ops = append(ops, op)
 	}
 	return NewTxn(w.NextIdx(t), ops)
 }
@@ -865,4 +896,367 @@ func (w *World) DrawCoord(t *rapid.T) *Op {
 func (w *World) DrawSysMeta(t *rapid.T) *Op {
 	k := pick(t, "smkey", []string{structs.SystemMetadataVirtualIPsEnabled, structs.SystemMetadataTermGatewayVirtualIPsEnabled})
 	return NewSysMeta(w.NextIdx(t), k, "true")
+}
+
+// ---- targeted operations: end a live session through each of the paths the lock property names
+
+// DrawSessionKiller picks a live session and ends it through a drawn path: explicit destroy, node
+// deregistration, a bound check turning critical, deletion of a bound check, deregistration of the service a
+// bound check belongs to, node rename by ID, or the transactional forms of these.
+func (w *World) DrawSessionKiller(t *rapid.T, cfg *Cfg) *Op {
+	_, ss, _ := w.Store.SessionList(nil, nil)
+	if len(ss) == 0 {
+		return w.DrawSession(t, cfg)
+	}
+	sort.Slice(ss, func(i, j int) bool { return ss[i].ID < ss[j].ID })
+	s := pick(t, "victim", ss)
+	bound := s.CheckIDs()
+	checks := w.NodeChecks(s.Node, "")
+	find := func(id types.CheckID) *structs.HealthCheck {
+		for _, c := range checks {
+			if c.CheckID == id {
+				return c
+			}
+		}
+		return nil
+	}
+	viaTxn := cfg.TxnCatalog && chance(t, "viatxn", 40)
+	path := rapid.IntRange(0, 6).Draw(t, "killpath")
+	if len(bound) == 0 && path >= 2 && path <= 4 {
+		path = rapid.IntRange(0, 1).Draw(t, "killpath2")
+	}
+	_, node, _ := w.Store.GetNode(s.Node, nil, "")
+	switch path {
+	case 0: // explicit destroy / txn session delete
+		if viaTxn {
+			return NewTxn(w.NextIdx(t), structs.TxnOps{&structs.TxnOp{Session: &structs.TxnSessionOp{Verb: api.SessionDelete, Session: structs.Session{ID: s.ID, EnterpriseMeta: defaultEM}}}})
+		}
+		return NewSessDestroy(w.NextIdx(t), s.ID)
+	case 1: // node deregistration
+		if viaTxn && node != nil {
+			n := structs.Node{Node: node.Node, ID: node.ID, Address: node.Address, Datacenter: "dc1"}
+			verb := api.NodeDelete
+			if chance(t, "cas", 40) {
+				verb = api.NodeDeleteCAS
+				n.ModifyIndex = node.ModifyIndex
+			}
+			return NewTxn(w.NextIdx(t), structs.TxnOps{&structs.TxnOp{Node: &structs.TxnNodeOp{Verb: verb, Node: n}}})
+		}
+		return NewDereg(DeregNode, w.NextIdx(t), s.Node, "", "")
+	case 2: // bound check turns critical
+		c := find(pick(t, "boundcheck", bound))
+		if c == nil {
+			return NewSessDestroy(w.NextIdx(t), s.ID)
+		}
+		cc := c.Clone()
+		cc.Status = api.HealthCritical
+		cc.RaftIndex = structs.RaftIndex{}
+		if viaTxn {
+			verb := api.CheckSet
+			if chance(t, "cas", 40) {
+				verb = api.CheckCAS
+				cc.ModifyIndex = c.ModifyIndex
+			}
+			return NewTxn(w.NextIdx(t), structs.TxnOps{&structs.TxnOp{Check: &structs.TxnCheckOp{Verb: verb, Check: *cc}}})
+		}
+		req := &structs.RegisterRequest{Datacenter: "dc1", Node: s.Node, Address: "10.0.0." + s.Node[1:], SkipNodeUpdate: true, Checks: structs.HealthChecks{cc}, EnterpriseMeta: defaultEM}
+		if node != nil {
+			req.ID, req.Address = node.ID, node.Address
+		}
+		return NewRegister(w.NextIdx(t), req)
+	case 3: // bound check deleted
+		id := pick(t, "boundcheck", bound)
+		if viaTxn {
+			hc := structs.HealthCheck{Node: s.Node, CheckID: id, EnterpriseMeta: defaultEM}
+			verb := api.CheckDelete
+			if c := find(id); c != nil && chance(t, "cas", 40) {
+				verb = api.CheckDeleteCAS
+				hc.ModifyIndex = c.ModifyIndex
+			}
+			return NewTxn(w.NextIdx(t), structs.TxnOps{&structs.TxnOp{Check: &structs.TxnCheckOp{Verb: verb, Check: hc}}})
+		}
+		return NewDereg(DeregCheck, w.NextIdx(t), s.Node, string(id), "")
+	case 4: // service of a bound service-level check deregistered
+		for _, id := range bound {
+			if c := find(id); c != nil && c.ServiceID != "" {
+				if viaTxn {
+					return NewTxn(w.NextIdx(t), structs.TxnOps{&structs.TxnOp{Service: &structs.TxnServiceOp{Verb: api.ServiceDelete, Node: s.Node, Service: structs.NodeService{ID: c.ServiceID, EnterpriseMeta: defaultEM}}}})
+				}
+				return NewDereg(DeregService, w.NextIdx(t), s.Node, c.ServiceID, "")
+			}
+		}
+		return NewDereg(DeregCheck, w.NextIdx(t), s.Node, string(pick(t, "boundcheck", bound)), "")
+	case 5: // rename by ID: the node's ID re-registered under another name removes the old node
+		if node != nil && node.ID != "" {
+			var other []string
+			for _, n := range Nodes {
+				if n != node.Node {
+					other = append(other, n)
+				}
+			}
+			nn := pick(t, "newname", other)
+			req := &structs.RegisterRequest{Datacenter: "dc1", Node: nn, ID: node.ID, Address: node.Address, EnterpriseMeta: defaultEM}
+			return NewRegister(w.NextIdx(t), req)
+		}
+		return NewDereg(DeregNode, w.NextIdx(t), s.Node, "", "")
+	}
+	// 6: a multi-op transaction that ends the session and touches one of its keys in the same step
+	var held []string
+	if _, ents, _ := w.Store.KVSList(nil, "", nil); len(ents) > 0 {
+		for _, e := range ents {
+			if e.Session == s.ID {
+				held = append(held, e.Key)
+			}
+		}
+	}
+	ops := structs.TxnOps{&structs.TxnOp{Session: &structs.TxnSessionOp{Verb: api.SessionDelete, Session: structs.Session{ID: s.ID, EnterpriseMeta: defaultEM}}}}
+	if cfg.TxnCatalog && chance(t, "nodedel", 50) {
+		ops = structs.TxnOps{&structs.TxnOp{Node: &structs.TxnNodeOp{Verb: api.NodeDelete, Node: structs.Node{Node: s.Node}}}}
+	}
+	if len(held) > 0 {
+		k := pick(t, "heldkey", held)
+		ops = append(ops, &structs.TxnOp{KV: &structs.TxnKVOp{Verb: api.KVGet, DirEnt: structs.DirEntry{Key: k, EnterpriseMeta: defaultEM}}})
+	}
+	return NewTxn(w.NextIdx(t), ops)
+}
+
+
+// fixTxnKVOp rewrites a drawn KV verb so that it succeeds on the current (pre-transaction) state.
+func (w *World) fixTxnKVOp(t *rapid.T, op *structs.TxnKVOp) {
+	d := &op.DirEnt
+	cur := w.KVEntry(d.Key)
+	live := w.LiveSessions()
+	switch op.Verb {
+	case api.KVCAS:
+		d.ModifyIndex = 0
+		if cur != nil {
+			d.ModifyIndex = cur.ModifyIndex
+		}
+	case api.KVDeleteCAS:
+		if cur != nil {
+			d.ModifyIndex = cur.ModifyIndex
+		}
+	case api.KVLock:
+		switch {
+		case cur != nil && cur.Session != "":
+			d.Session = cur.Session
+		case len(live) > 0:
+			d.Session = pick(t, "fixlive", live)
+		default:
+			op.Verb, d.Session = api.KVSet, ""
+		}
+	case api.KVUnlock:
+		if cur != nil && cur.Session != "" {
+			d.Session = cur.Session
+		} else {
+			op.Verb, d.Session = api.KVSet, ""
+		}
+	case api.KVGet:
+		if cur == nil {
+			op.Verb = api.KVGetOrEmpty
+		}
+	case api.KVCheckSession:
+		if cur != nil && cur.Session != "" {
+			d.Session = cur.Session
+		} else {
+			op.Verb, d.Session = api.KVGetOrEmpty, ""
+		}
+	case api.KVCheckIndex:
+		if cur != nil {
+			d.ModifyIndex = cur.ModifyIndex
+		} else {
+			op.Verb, d.ModifyIndex = api.KVCheckNotExists, 0
+		}
+	case api.KVCheckNotExists:
+		if cur != nil {
+			op.Verb = api.KVGet
+		}
+	}
+}
+
+// fixTxnCatalogOp rewrites a drawn catalog verb so that it succeeds on the current state where that is cheap to arrange.
+func (w *World) fixTxnCatalogOp(t *rapid.T, op *structs.TxnOp) {
+	nodes := w.LiveNodes("")
+	switch {
+	case op.Node != nil:
+		_, cur, _ := w.Store.GetNode(op.Node.Node.Node, nil, "")
+		switch op.Node.Verb {
+		case api.NodeGet:
+			if cur == nil {
+				op.Node.Verb = api.NodeSet
+			}
+		case api.NodeCAS, api.NodeDeleteCAS:
+			op.Node.Node.ModifyIndex = 0
+			if cur != nil {
+				op.Node.Node.ModifyIndex = cur.ModifyIndex
+			} else if op.Node.Verb == api.NodeDeleteCAS {
+				op.Node.Verb = api.NodeDelete
+			}
+		}
+	case op.Service != nil:
+		if len(nodes) == 0 {
+			return
+		}
+		if _, cur, _ := w.Store.GetNode(op.Service.Node, nil, ""); cur == nil {
+			op.Service.Node = nodes[0].Node
+		}
+		var curIdx uint64
+		found := false
+		for _, e := range w.NodeServices(op.Service.Node, "") {
+			if e.ID == op.Service.Service.ID {
+				curIdx, found = e.ModifyIndex, true
+			}
+		}
+		switch op.Service.Verb {
+		case api.ServiceGet:
+			if !found {
+				op.Service.Verb = api.ServiceSet
+			}
+		case api.ServiceCAS:
+			op.Service.Service.ModifyIndex = curIdx
+		case api.ServiceDeleteCAS:
+			if found {
+				op.Service.Service.ModifyIndex = curIdx
+			} else {
+				op.Service.Verb = api.ServiceDelete
+			}
+		}
+		if (op.Service.Verb == api.ServiceSet || op.Service.Verb == api.ServiceCAS) && op.Service.Service.Service == "" {
+			op.Service.Service.Service = "web"
+		}
+	case op.Check != nil:
+		if len(nodes) == 0 {
+			return
+		}
+		if _, cur, _ := w.Store.GetNode(op.Check.Check.Node, nil, ""); cur == nil {
+			op.Check.Check.Node = nodes[0].Node
+		}
+		var curIdx uint64
+		found := false
+		for _, e := range w.NodeChecks(op.Check.Check.Node, "") {
+			if e.CheckID == op.Check.Check.CheckID {
+				curIdx, found = e.ModifyIndex, true
+			}
+		}
+		if op.Check.Check.ServiceID != "" {
+			ok := false
+			for _, e := range w.NodeServices(op.Check.Check.Node, "") {
+				ok = ok || e.ID == op.Check.Check.ServiceID
+			}
+			if !ok {
+				op.Check.Check.ServiceID, op.Check.Check.ServiceName = "", ""
+			}
+		}
+		switch op.Check.Verb {
+		case api.CheckGet:
+			if !found {
+				op.Check.Verb = api.CheckSet
+			}
+		case api.CheckCAS:
+			op.Check.Check.ModifyIndex = curIdx
+		case api.CheckDeleteCAS:
+			if found {
+				op.Check.Check.ModifyIndex = curIdx
+			} else {
+				op.Check.Verb = api.CheckDelete
+			}
+		}
+	}
+}
+
+
+// DrawTxnPlan draws a transaction whose verbs all pass on the pre-state and, in ~60 % of the cases, places one
+// failing verb at a drawn position (stale CAS, failed guard, missing node/service, lock held or unknown session,
+// read of a missing entry, unknown session delete).
+func (w *World) DrawTxnPlan(t *rapid.T, cfg *Cfg) *Op {
+	max := cfg.MaxTxnOps
+	if max == 0 {
+		max = 6
+	}
+	n := rapid.IntRange(1, max).Draw(t, "ntxn")
+	var ops structs.TxnOps
+	for i := 0; i < n; i++ {
+		var op *structs.TxnOp
+		if cfg.TxnCatalog && chance(t, "catalogop", 45) {
+			op = w.drawTxnCatalogOp(t, cfg)
+			w.fixTxnCatalogOp(t, op)
+		} else {
+			op = w.DrawTxnKVOp(t)
+			w.fixTxnKVOp(t, op.KV)
+		}
+		ops = append(ops, op)
+	}
+	if chance(t, "withfailure", 60) {
+		pos := rapid.IntRange(0, len(ops)).Draw(t, "failpos")
+		bad := w.drawFailingTxnOp(t, cfg)
+		ops = append(ops[:pos], append(structs.TxnOps{bad}, ops[pos:]...)...)
+	}
+	return NewTxn(w.NextIdx(t), ops)
+}
+
+func (w *World) drawFailingTxnOp(t *rapid.T, cfg *Cfg) *structs.TxnOp {
+	key := pick(t, "key", Keys)
+	cur := w.KVEntry(key)
+	kv := func(verb api.KVOp, d structs.DirEntry) *structs.TxnOp {
+		d.Key, d.EnterpriseMeta = key, defaultEM
+		return &structs.TxnOp{KV: &structs.TxnKVOp{Verb: verb, DirEnt: d}}
+	}
+	kmax := 7
+	if cfg.TxnCatalog {
+		kmax = 12
+	}
+	switch rapid.IntRange(0, kmax).Draw(t, "failkind") {
+	case 0: // stale / impossible CAS
+		if cur != nil {
+			return kv(api.KVCAS, structs.DirEntry{Value: []byte("x"), RaftIndex: structs.RaftIndex{ModifyIndex: cur.ModifyIndex + 7}})
+		}
+		return kv(api.KVCAS, structs.DirEntry{Value: []byte("x"), RaftIndex: structs.RaftIndex{ModifyIndex: 5}})
+	case 1: // failed check-index guard
+		var mi uint64 = 5
+		if cur != nil {
+			mi = cur.ModifyIndex + 3
+		}
+		return kv(api.KVCheckIndex, structs.DirEntry{RaftIndex: structs.RaftIndex{ModifyIndex: mi}})
+	case 2: // failed check-session guard
+		return kv(api.KVCheckSession, structs.DirEntry{Session: "5e55ffff-ffff-4fff-8fff-ffffffffffff"})
+	case 3: // check-not-exists on an existing key / get on a missing one
+		if cur != nil {
+			return kv(api.KVCheckNotExists, structs.DirEntry{})
+		}
+		return kv(api.KVGet, structs.DirEntry{})
+	case 4: // lock with unknown session
+		return kv(api.KVLock, structs.DirEntry{Value: []byte("x"), Session: "5e55ffff-ffff-4fff-8fff-ffffffffffff"})
+	case 5: // lock held by another session / unlock by non-holder
+		if cur != nil && cur.Session != "" {
+			for _, id := range w.LiveSessions() {
+				if id != cur.Session {
+					return kv(api.KVLock, structs.DirEntry{Value: []byte("x"), Session: id})
+				}
+			}
+		}
+		return kv(api.KVUnlock, structs.DirEntry{Session: "5e55ffff-ffff-4fff-8fff-ffffffffffff"})
+	case 6: // stale delete-cas
+		if cur != nil {
+			return kv(api.KVDeleteCAS, structs.DirEntry{RaftIndex: structs.RaftIndex{ModifyIndex: cur.ModifyIndex + 9}})
+		}
+		return kv(api.KVGet, structs.DirEntry{})
+	case 7:
+		return kv(api.KVGet, structs.DirEntry{Key: "zz/missing"}) // key is overwritten by kv(); keep as plain get of drawn key when absent
+	case 8: // service on a missing node
+		return &structs.TxnOp{Service: &structs.TxnServiceOp{Verb: api.ServiceSet, Node: "n-missing", Service: structs.NodeService{ID: "web-1", Service: "web", Port: 80, EnterpriseMeta: defaultEM}}}
+	case 9: // check on a missing node / missing service
+		return &structs.TxnOp{Check: &structs.TxnCheckOp{Verb: api.CheckSet, Check: structs.HealthCheck{Node: "n-missing", CheckID: "c1", Name: "c1", Status: api.HealthPassing, EnterpriseMeta: defaultEM}}}
+	case 10: // stale node CAS
+		node := pick(t, "node", Nodes)
+		_, curN, _ := w.Store.GetNode(node, nil, "")
+		var mi uint64 = 3
+		if curN != nil {
+			mi = curN.ModifyIndex + 5
+		}
+		return &structs.TxnOp{Node: &structs.TxnNodeOp{Verb: api.NodeCAS, Node: structs.Node{Node: node, ID: NodeIDs[node], Address: "10.0.0.9", RaftIndex: structs.RaftIndex{ModifyIndex: mi}}}}
+	case 11: // get of a missing service / check
+		return &structs.TxnOp{Service: &structs.TxnServiceOp{Verb: api.ServiceGet, Node: pick(t, "node", Nodes), Service: structs.NodeService{ID: "nope-1", EnterpriseMeta: defaultEM}}}
+	default: // delete of an unknown session
+		return &structs.TxnOp{Session: &structs.TxnSessionOp{Verb: api.SessionDelete, Session: structs.Session{ID: "5e55ffff-ffff-4fff-8fff-ffffffffffff", EnterpriseMeta: defaultEM}}}
+	}
 }
